@@ -20,8 +20,8 @@ type fval struct {
 	kind  string // int | bool | nil | err | unknown | slice | map
 	i     int64
 	b     bool
-	elems []fval           // slice
-	m     map[int64]fval   // map with integer (enum) keys
+	elems []fval         // slice
+	m     map[int64]fval // map with integer (enum) keys
 }
 
 func (v fval) String() string {
